@@ -340,7 +340,7 @@ def add_units(plan, prop, table, path, what, atomic=False, out="out", only_modes
         u = vlib.VerusUnit("%s_%s" % (prop.lower(), name), vlib.verus_file(items), {"k_%s_%s" % (name, m): obs[m].name for m in modes}, ["canary_" + name])
         u.rlimit = 150
         plan.verus.append(u)
-    plan.dropped.append("(K) indexing kernels: macro bodies transcribed onto the Verus matrix model by the rewrite rules R0-R9 of /verif/units/vmat.py "
+    plan.dropped.append("(K) indexing kernels: macro bodies transcribed onto the Verus matrix model by the rewrite rules R0-R11 of /verif/units/vmat.py "
                         "(metavariables -> parameters, raw-pointer derefs dropped, nalgebra index/assign -> bounds-checked get/set with `?` for the panic, "
                         "`x - 1` -> dec(x)?, element clones dropped, elements modelled as u64)")
     plan.assumptions.append("nalgebra's DMatrix/DVector/RowDVector behave as /verif/contracts/common/matmodel.rs (column-major storage, bounds-checked "
